@@ -763,6 +763,19 @@ func refl(c px.Context, t *gty, ve sx.Sexp, register bool) core.Result {
 		return res(out+" | inst="+ik, "FAIL fault IsInstance: "+itext)
 	}
 	out += " | inst=" + sx.B(inst)
+	// embedding: the wrapped struct is an instance of the type of every ancestor (embedded first field, recursively)
+	ancOK := true
+	if anc := ancestorTypes(c, t); register && len(anc) > 0 {
+		out += " | anc="
+		for _, at := range anc {
+			ai := false
+			if k, text := safely(func() { ai = px.IsInstance(at, wrapped) }); k != "" {
+				return res(out+k, "FAIL fault IsInstance of the parent type: "+text)
+			}
+			out += sx.B(ai)
+			ancOK = ancOK && ai
+		}
+	}
 	// Value → Go
 	back := reflect.New(rt).Elem()
 	bk, btext := safely(func() { c.Reflector().ReflectTo(wrapped, back) })
@@ -793,7 +806,24 @@ func refl(c px.Context, t *gty, ve sx.Sexp, register bool) core.Result {
 	if !inst {
 		return res(out, "FAIL "+instClass(t, gv, true)+" "+ts+" rejects "+ws)
 	}
+	if !ancOK {
+		return res(out, "FAIL parent-type-rejects-child a type derived from an embedded parent struct rejects "+ws)
+	}
 	return res(out, "ok")
+}
+
+// ancestorTypes: for a struct type, the object types derived from its chain of embedded first fields (nearest first)
+func ancestorTypes(c px.Context, t *gty) []px.Type {
+	ats := []px.Type{}
+	for t.kind == "struct" && len(t.fields) > 0 && t.fields[0].anon && t.fields[0].t.kind == "struct" {
+		t = t.fields[0].t
+		if pt, ok := c.ImplementationRegistry().ReflectedToType(t.rtype()); ok {
+			ats = append(ats, pt)
+		} else {
+			ats = append(ats, types.DefaultObjectType()) // never: every struct type of the term was registered
+		}
+	}
+	return ats
 }
 
 // regFailClass names the reason the object type of some struct type in t cannot be derived
